@@ -72,7 +72,12 @@ fn cases_attacks(_rng: &mut Rng, sink: &mut dyn FnMut(J) -> bool) {
     ] {
         attacks.push(json!({"kind": "claim_value", "field": f, "value": v}));
     }
-    for t in [json!(null), json!("JWT"), json!("kb+jwt "), json!("KB+JWT"), json!("kb-jwt"), json!("sd+jwt"), json!("")] {
+    for t in [
+        json!(null), json!("JWT"), json!("kb+jwt "), json!("KB+JWT"), json!("kb-jwt"), json!("sd+jwt"), json!(""),
+        // suffix / prefix / case / whitespace variants: only exactly `kb+jwt` is a key-binding JWT
+        json!("notkb+jwt"), json!("sd+kb+jwt"), json!("x/y+kb+jwt"), json!("application/kb+jwt"), json!("+kb+jwt"), json!(" kb+jwt"), json!("\tkb+jwt"), json!("kb+jwt\n"), json!("kb+jwt+x"), json!("kb+jwtx"),
+        json!("kb+jwt;v=1"), json!("Kb+jwt"), json!("kb+JWT"), json!("b+jwt"), json!("kb+jw"), json!("kb jwt"), json!("kb%2Bjwt"), json!("kb+jwt\u{0}"), json!("kb+jwt,kb+jwt"), json!("jwt"), json!("kb"),
+    ] {
         attacks.push(json!({"kind": "typ", "typ": t}));
     }
     for who in ["issuer", "other_holder_same_family", "other_holder_other_family", "hs_with_public_key"] {
@@ -80,6 +85,19 @@ fn cases_attacks(_rng: &mut Rng, sink: &mut dyn FnMut(J) -> bool) {
     }
     for how in ["one_more", "one_fewer", "reordered", "none_left", "other_credential", "sd_hash_of_other_set"] {
         attacks.push(json!({"kind": "replay", "how": how}));
+    }
+    // honest key-bound presentations that disclose nothing, little, everything; also credentials
+    // with no selectively disclosable claims at all
+    for cfg in configs() {
+        for strategy in [Strategy::AllLevels, Strategy::NoSD, Strategy::TopLevel, Strategy::Custom(vec!["$.addr.city".into()])] {
+            for select in ["nothing", "one", "all"] {
+                let mut c = cfg.clone();
+                c.strategy = strategy.clone();
+                if !sink(case_of(&c, json!({"kind": "none", "select": select}), AUD, NONCE)) {
+                    return;
+                }
+            }
+        }
     }
     for cfg in configs() {
         for a in &attacks {
@@ -161,7 +179,11 @@ pub fn check(case: &J) -> Verdict {
     let attack = &case["attack"];
     let kind = attack["kind"].as_str().unwrap_or("none");
     let kb = Kb { nonce: case["nonce"].as_str().unwrap_or(NONCE).into(), aud: case["aud"].as_str().unwrap_or(AUD).into(), holder: holder.clone() };
-    let all = select_all(&cfg.claims);
+    let all = match attack["select"].as_str() {
+        Some("nothing") => serde_json::Map::new(),
+        Some("one") => json!({"role": true}).as_object().unwrap().clone(),
+        _ => select_all(&cfg.claims),
+    };
 
     // ---- issuance (possibly as the second credential of one issuer instance)
     let issued = if kind == "issuer_sequence" {
